@@ -116,6 +116,8 @@ def element_args(op):
     k = op[0]
     if k == 'add':
         return [op[2]]
+    if k == 'insert':
+        return [op[3]]
     if k == 'setparent':
         return [op[1]]
     hs = []
@@ -146,6 +148,8 @@ def classify(impl_before_listed, op):
     k = op[0]
     if k == 'newchild':
         return 'construct-with-parent'
+    if k == 'insert':
+        return 'insert'
     if k == 'setparent' and op[2] is None and impl_before_listed:
         return 'parent-none-of-listed'
     if impl_before_listed and k in ('add', 'setattr', 'setindex', 'setlistindex', 'setparent'):
@@ -294,6 +298,20 @@ def main(argv=None):
     for v in versions:
         for lvl in (H.TOLERANT, H.STRICT):
             fam += [
+                # a component without a name of its own (called like its datatype) whose datatype changes after it was
+                # attached: directly, from the field, from its subcomponent
+                (v, lvl, [['newfield', lvl, 'PID_3', None], ['setattr', 0, ['cx_1'], ['t', '123']], ['newcomp', lvl, None, 'ST'],
+                          ['add', 0, 1], ['setdatatype', 1, 'ID'], ['lenlist', 0], ['remove', 0, 1]]),
+                (v, lvl, [['newfield', lvl, 'PID_1', None], ['newcomp', lvl, None, 'SI'], ['add', 0, 1], ['setdatatype', 0, 'NM'],
+                          ['dellistindex', 0, 0]]),
+                (v, lvl, [['newfield', lvl, None, 'ST'], ['newcomp', lvl, None, 'ST'], ['newsub', lvl, None, 'ST', ''], ['add', 1, 2],
+                          ['add', 0, 1], ['setdatatype', 2, 'NM'], ['lenlist', 0]]),
+                # children.insert(i, element) (MutableSequence API)
+                (v, lvl, [['newseg', lvl, 'PID'], ['addhelper', 0, 'PID_3'], ['addhelper', 0, 'PID_3'], ['newfield', lvl, 'PID_3', None],
+                          ['insert', 0, 0, 3], ['lenlist', 0]]),
+                (v, lvl, [['newseg', lvl, 'PID'], ['addhelper', 0, 'PID_3'], ['newfield', lvl, 'PID_5', None], ['insert', 0, 0, 2],
+                          ['newfield', lvl, 'PID_3', None], ['insert', 0, 2, 3]]),
+                (v, lvl, [['newseg', lvl, 'ZZ1'], ['newfield', lvl, 'ZZ1_7', None], ['setvalue', 1, 'x'], ['insert', 0, 0, 1], ['toer7', 0]]),
                 (v, lvl, [['newfield', lvl, 'PID_1', None], ['newchild', 0, None, 'SI'], ['lenlist', 0]]),
                 (v, lvl, [['newfield', lvl, 'PID_5', None], ['newchild', 0, 'XPN_1', None], ['lenlist', 0]]),
                 (v, lvl, [['newfield', lvl, 'PID_5', None], ['newchild', 0, None, 'FN'], ['newchild', 0, None, 'ST']]),
